@@ -480,6 +480,29 @@ def holder_payload_dep_leak(case) -> bool:
     return False
 
 
+def nested_duplicate_send(case) -> bool:
+    """Two holders with the same (destination, tag) on one rank, one of them
+    reachable from the *payload* of the other."""
+    from pytato.distributed.nodes import DistributedSendRefHolder
+
+    from pvf import distgen
+    try:
+        builds = distgen.build_case(case)
+    except Exception:  # noqa: BLE001
+        return False
+    for b in builds:
+        hs = [n for n in reflect.walk(b.outputs).values()
+              if isinstance(n, DistributedSendRefHolder)]
+        for h2 in hs:
+            below = reflect.walk(h2.send.data)
+            for h1 in hs:
+                if h1 is not h2 and id(h1) in below \
+                        and h1.send.dest_rank == h2.send.dest_rank \
+                        and h1.send.comm_tag == h2.send.comm_tag:
+                    return True
+    return False
+
+
 def model_outputs(builds) -> list[dict[str, np.ndarray]]:
     """Reference value of every output of every rank."""
     index: dict[tuple, list] = {}
@@ -564,8 +587,9 @@ def classify(builds) -> dict:
                 expected.add("self")
                 continue
             if not (0 <= s.dest_rank < n):
+                # a send nobody can receive
                 reasons.append(f"send to nonexistent rank {s.dest_rank}")
-                unspecified = True
+                expected.add("missing")
                 continue
             key = (r, s.dest_rank, s.comm_tag)
             if key in seen_s:
@@ -591,7 +615,7 @@ def classify(builds) -> dict:
                 continue
             if not (0 <= q.src_rank < n):
                 reasons.append(f"receive from nonexistent rank {q.src_rank}")
-                unspecified = True
+                expected.add("missing")
                 continue
             key = (q.src_rank, r, q.comm_tag)
             if key in seen_r:
@@ -635,7 +659,8 @@ def classify(builds) -> dict:
         reasons.append("cyclic dependency among messages")
         expected.add("cycle")
     del DistributedSendRefHolder
-    return {"valid": not reasons, "unspecified": unspecified,
+    # the no-verdict conditions only matter for otherwise well-formed programs
+    return {"valid": not reasons, "unspecified": unspecified and not expected,
             "reasons": reasons, "expected": expected,
             "messages": len(send_ids)}
 
